@@ -48,7 +48,7 @@ CFGS = [ops.mk(3, joliet=3), ops.mk(3, joliet=3, udf=True), ops.mk(3, joliet=3, 
 BOUNDS = {
     'quick': [('alpha', 'sigma7', CFGS, 3, 2), ('alpha', 'sigma7', CFGS[1:2], 4, 2),
               ('alpha', 'sigma_readd_q', [CFGS[2], ops.mk(3, joliet=3, rr='1.12')], 4, 2)],
-    'thorough': [('alpha', 'sigma7', CFGS, 4, 2), ('alpha', 'sigma7_big', CFGS[1:], 5, 2),
+    'thorough': [('alpha', 'sigma7', CFGS, 4, 2), ('alpha', 'sigma7_big', CFGS[2:], 5, 2),
                  ('alpha', 'sigma_readd_q', CFGS + [ops.mk(3, joliet=3, rr='1.12'), ops.mk(1, rr='1.09')], 4, 2),
                  ('alpha', 'sigma_readd_q', [ops.mk(3, joliet=3, rr='1.12')], 5, 2)],
 }
